@@ -37,6 +37,9 @@ func Item[K comparable, V any](d Dict[K, V], key K) V {
 }
 
 func KVs[K comparable, V any](d Dict[K, V]) []frt.Tuple2[K, V] {
+	if r, ok := verifKVs(d); ok {
+		return r
+	}
 	var res []frt.Tuple2[K, V]
 	for k, v := range d.Fdict {
 		res = append(res, frt.NewTuple2(k, v))
@@ -45,6 +48,9 @@ func KVs[K comparable, V any](d Dict[K, V]) []frt.Tuple2[K, V] {
 }
 
 func Keys[K comparable, V any](d Dict[K, V]) []K {
+	if r, ok := verifKeys(d); ok {
+		return r
+	}
 	var res []K
 	for k := range d.Fdict {
 		res = append(res, k)
@@ -53,6 +59,9 @@ func Keys[K comparable, V any](d Dict[K, V]) []K {
 }
 
 func Values[K comparable, V any](d Dict[K, V]) []V {
+	if r, ok := verifValues(d); ok {
+		return r
+	}
 	var res []V
 	for _, v := range d.Fdict {
 		res = append(res, v)
